@@ -109,6 +109,8 @@ structure Params where
   withdrawDelay : Nat := 64
   retention : Nat := 64
   expelInactive : Nat := 64
+  expelDoubleSign : Nat := 256
+  penaltyDoubleSign : Nat := 2
   penaltyPct : Nat := 1
   waitRounds : Nat := 32
   minDelegation : Int := 10000000000000000000
@@ -135,6 +137,7 @@ structure St where
   burnt : Int := 0       -- tokens destroyed by self-destruct-to-self (ledger sink)
   gasPool : Nat := 0
   number : Nat := 0
+  dsSeen : List Addr := []   -- validators already punished for double signing in the block under construction
   lost : Int := 0        -- diagnostic: rewards overwritten by stale-object settlement in the last end-block (F-C07a)
   lostDel : Int := 0     -- diagnostic: undistributed rewards of validators removed as empty in the last end-block (F-C07d)
   lostOther : Int := 0   -- diagnostic (ghost): value lost on paths no realistic chain reaches: "empty stake" at a period end,
@@ -536,26 +539,28 @@ def takeFromStake (unit : Int) (v : Val) (tq : TQ) : Val × Int :=
               stake := v.stake - (v.selfStake - nSelfStake) - r.2.2.1, delegs := r.1 }, tq.2.2.2.1 + takeSelf + r.2.1)
   else (v, tq.2.2.2.1)
 
-/-- takePenalty(currentDB, val, penaltyAmount) for amount > 0 and Stake ≠ 0: (queue, newVal, totalPenalty) -/
+/-- takePenalty(currentDB, val, penaltyAmount) for amount > 0: (queue, newVal, totalPenalty). A validator whose parts are all
+below one stake unit has Stake = 0 < Token: nothing to prorate by, the whole amount is remainder and is borne by the
+validator itself (repo fix 2215675; before it QuoRem panicked). -/
 def takePenalty (unit : Int) (queue : List WRec) (v : Val) (amount : Int) : List WRec × Val × Int :=
   let obligation : Int := if v.risk > 0 ∧ v.risk ≤ 10000 then amount * v.risk / 10000 else 0
-  let per := (amount - obligation) / v.stake
-  let selfPenalty := per * v.selfStake + (amount - obligation) % v.stake + obligation
-  let tq := takeFromQueue v.addr queue selfPenalty (v.delegs.map (fun d => (d.who, per * d.stake))) 0 amount
+  let per : Int := if v.stake = 0 then 0 else (amount - obligation) / v.stake
+  let rem : Int := if v.stake = 0 then amount - obligation else (amount - obligation) % v.stake
+  let tq := takeFromQueue v.addr queue (per * v.selfStake + rem + obligation) (v.delegs.map (fun d => (d.who, per * d.stake))) 0 amount
   (tq.1, takeFromStake unit v tq)
 
-/-- the expelling part of doPenalize -/
-def expel (p : Params) (n : Nat) (nv : Val) : Val :=
-  { nv with status := 0, expelled := true, lastInactive := n,
-            expelExpired := if n + p.expelInactive > nv.expelExpired then n + p.expelInactive else nv.expelExpired }
+/-- the expelling part of doPenalize; `ds` = double-sign evidence (longer expulsion, LastInactive untouched) -/
+def expel (p : Params) (ds : Bool) (n : Nat) (nv : Val) : Val :=
+  { nv with status := 0, expelled := true, lastInactive := if ds then nv.lastInactive else n,
+            expelExpired := if n + (if ds then p.expelDoubleSign else p.expelInactive) > nv.expelExpired
+                            then n + (if ds then p.expelDoubleSign else p.expelInactive) else nv.expelExpired }
 
-/-- doPenalize for the inactivity case (takePenalty + expel + credit PenaltyTo). `v` is the stored object. -/
-def penalize (p : Params) (s : St) (v : Val) (amount : Int) : St × Out :=
-  if amount > 0 ∧ v.stake = 0 then (s, .crash)          -- QuoRem by Stake = 0 panics (F-C05c)
-  else if amount > 0 then
+/-- doPenalize (takePenalty + expel + credit PenaltyTo). `v` is the stored object. -/
+def penalize (p : Params) (s : St) (v : Val) (amount : Int) (ds : Bool := false) : St × Out :=
+  if amount > 0 then
     let r := takePenalty p.unit s.queue v amount
-    (credit { s with queue := r.1, vals := putVal s.vals (expel p s.number r.2.1) } p.penAddr r.2.2, .ok)
-  else (credit { s with vals := putVal s.vals (expel p s.number v), lostOther := s.lostOther - amount } p.penAddr amount, .ok)   -- amount ≤ 0 (= 0 on any real state)
+    (credit { s with queue := r.1, vals := putVal s.vals (expel p ds s.number r.2.1) } p.penAddr r.2.2, .ok)
+  else (credit { s with vals := putVal s.vals (expel p ds s.number v), lostOther := s.lostOther - amount } p.penAddr amount, .ok)   -- amount ≤ 0 (= 0 on any real state)
 
 /-- one validator of slashingAndRecoveringYouV5; `v` is the stored object -/
 def slashOne (p : Params) (s : St) (v : Val) : St × Out :=
@@ -836,13 +841,25 @@ def endBlock (p : Params) (s : St) (coinbase : Addr) (order : List (Addr × Addr
 
 /-! ## operations and runs -/
 
+/-- processDoubleSignV5 for an evidence whose signatures verified against validator `a` of the look-back set (crypto and
+look-back resolution are the harness' observation; C05 models them): once per validator and block, 2 % of the token -/
+def evidenceStep (p : Params) (s : St) (a : Addr) : St × Out :=
+  if s.dsSeen.contains a then (s, .ok)
+  else match getVal s.vals a with
+    | none => (s, .ok)
+    | some v =>
+      ((penalize p { s with dsSeen := a :: s.dsSeen } v (v.token * p.penaltyDoubleSign / 100) true).1,
+       (penalize p { s with dsSeen := a :: s.dsSeen } v (v.token * p.penaltyDoubleSign / 100) true).2)
+
 inductive Op where
   | beginBlock (number gasLimit : Nat)
   | tx (t : Tx)
+  | evidence (a : Addr)
   | endBlock (coinbase : Addr) (order : List (Addr × Addr))
 
 def step (p : Params) (s : St) : Op → St × Out
-  | .beginBlock n g => ({ s with number := n, gasPool := g }, .ok)
+  | .beginBlock n g => ({ s with number := n, gasPool := g, dsSeen := [] }, .ok)
+  | .evidence a => evidenceStep p s a
   | .tx t => ((applyTx p s t).1, .ok)
   | .endBlock cb order => endBlock p s cb order
 
